@@ -294,6 +294,38 @@ func sameAnswer(model, implEvents, implTail string) bool {
 	return true
 }
 
+var (
+	failedCfgs = map[string]bool{}
+	notesSeen  = map[string]bool{}
+	deadline   time.Time
+)
+
+func noteOnce(n string) {
+	if !notesSeen[n] {
+		notesSeen[n] = true
+		res.Notes = append(res.Notes, n)
+	}
+}
+
+// enough: stop searching (the replays exist already) or out of time
+func enough() bool {
+	nImpl := 0
+	for _, v := range res.Violations {
+		if v.Kind == "impl-violation" {
+			nImpl++
+		}
+	}
+	if nImpl >= 6 {
+		noteOnce("search cut short: six implementation violations recorded already")
+		return true
+	}
+	if time.Now().After(deadline) {
+		noteOnce("search cut short: time budget of the tier used up")
+		return true
+	}
+	return false
+}
+
 func violate(oracle, detail string, input map[string]string) {
 	res.Count("oracle-fail:" + oracle)
 	res.Violate(common.Violation{Kind: "impl-violation", Oracle: oracle, Input: input, Detail: detail,
@@ -357,6 +389,25 @@ func (c workCfg) reach() map[int]bool {
 	return r
 }
 
+// stepBound is phi of the initial state (Par/ParWork.v): the proved bound on the number of steps.
+func (c workCfg) stepBound() int {
+	K := c.n + 3
+	added := map[int]bool{}
+	sum := c.n * (c.n + 2)
+	for _, i := range c.inits {
+		if !added[i] {
+			added[i] = true
+			sum += (len(c.g[i]) + 1) * K
+		}
+	}
+	for i := range c.g {
+		if !added[i] {
+			sum += (len(c.g[i])+1)*K + 2
+		}
+	}
+	return sum
+}
+
 func runWork(c workCfg, st vsync.Strategy) *vsync.Outcome {
 	w := &parv.Work{}
 	for _, i := range c.inits {
@@ -372,22 +423,20 @@ func runWork(c workCfg, st vsync.Strategy) *vsync.Outcome {
 		vsync.Yield("fe")
 		vsync.Trace("e:" + strconv.Itoa(i))
 	}
-	return vsync.Run(false, st, 20000, func() {
+	return vsync.Run(false, st, c.stepBound()+1, func() {
 		w.Do(c.n, f)
 		vsync.Trace("doret")
 	})
 }
 
+type finding struct{ oracle, detail string }
+
 // workOracles evaluates C09 on the implementation's own trace (no model involved).
-func workOracles(c workCfg, out *vsync.Outcome, input map[string]string) (ok bool) {
-	ok = true
-	bad := func(o, d string) {
-		ok = false
-		violate(o, d, input)
-	}
+func workOracles(c workCfg, out *vsync.Outcome) (fs []finding) {
+	bad := func(o, d string) { fs = append(fs, finding{o, d}) }
 	if out.Stuck {
-		res.Notes = append(res.Notes, "a goroutine blocked outside the scheduler shim; run ignored")
-		return true
+		noteOnce("a goroutine blocked outside the scheduler shim; run ignored")
+		return nil
 	}
 	if out.Panic != "" {
 		bad("work/no-panic", "panic: "+out.Panic)
@@ -436,7 +485,7 @@ func workOracles(c workCfg, out *vsync.Outcome, input map[string]string) (ok boo
 		return
 	}
 	if out.StepLimit {
-		bad("work/terminates", "step limit reached: the run does not terminate")
+		bad("work/terminates", fmt.Sprintf("the run took more than %d steps, the bound proved for the model (C09_schedules_finite: phi of the initial state): it does not terminate", c.stepBound()))
 		return
 	}
 	if !doret {
@@ -536,7 +585,28 @@ var workSeen = map[string]bool{}
 func oneWork(c workCfg, out *vsync.Outcome, src string) bool {
 	events, sched, tail, parks, wakes := workEvents(c, out)
 	input := map[string]string{"prop": "C09", "cfg": c.String(), "decisions": dots(chosen(out.Decisions)), "schedule": sched, "source": src}
-	ok := workOracles(c, out, input)
+	fs := workOracles(c, out)
+	ok := len(fs) == 0
+	if !ok {
+		// shrink: the shortest forced prefix of the decisions (default continuation after it) that still fails the same oracle
+		dec := chosen(out.Decisions)
+		best, bestOut := dec, out
+		for k := 0; k < len(dec) && k <= 400; k++ {
+			o2 := runWork(c, &prefixStrat{prefix: dec[:k]})
+			f2 := workOracles(c, o2)
+			if len(f2) > 0 && f2[0].oracle == fs[0].oracle {
+				best, bestOut, fs = dec[:k], o2, f2
+				break
+			}
+		}
+		_, sched2, _, _, _ := workEvents(c, bestOut)
+		in2 := map[string]string{"prop": "C09", "cfg": c.String(), "decisions": dots(best), "schedule": sched2, "source": src,
+			"text": fmt.Sprintf("Work.Do(n=%d), children=%v, initial Adds=%v; schedule (thread:choice) %s", c.n, c.g, c.inits, sched2)}
+		for _, f := range fs {
+			violate(f.oracle, f.detail, in2)
+		}
+		failedCfgs[c.String()] = true
+	}
 	pre := preemptions(out.Decisions)
 	res.Case(c.String()+"#"+events, pre > 0 || parks > 0 || wakes > 0)
 	res.Count("src:" + src)
@@ -625,7 +695,10 @@ func mainWork() {
 		for n := 1; n <= 3; n++ {
 			c := workCfg{n: n, g: g, inits: initsFor(g, k)}
 			runs, complete := dfs(func(st vsync.Strategy) *vsync.Outcome { return runWork(c, st) }, bound, maxRuns,
-				func(out *vsync.Outcome) bool { oneWork(c, out, "dfs"); return true })
+				func(out *vsync.Outcome) bool { return oneWork(c, out, "dfs") && !enough() })
+			if enough() {
+				break
+			}
 			res.Count(fmt.Sprintf("dfs-configs"))
 			if complete {
 				res.Count("dfs-complete")
@@ -677,7 +750,7 @@ func mainWork() {
 	if thorough {
 		nRand = 150000
 	}
-	for i := 0; i < nRand; i++ {
+	for i := 0; i < nRand && !enough(); i++ {
 		c := randWorkCfg(r, 8, 24)
 		st := &randStrat{r: r.Fork(), prio: i%2 == 0}
 		if st.prio {
@@ -795,6 +868,23 @@ func showVal(v any) string {
 	return fmt.Sprint(v)
 }
 
+// stepBound is psi of the initial state (Par/ParCache.v): the proved bound on the number of steps.
+func (c cacheCfg) stepBound() int {
+	sum := 0
+	for _, p := range c.progs {
+		for i, cl := range p {
+			if i > 0 {
+				sum += 13
+			} else if cl.do {
+				sum += 12
+			} else {
+				sum += 4
+			}
+		}
+	}
+	return sum
+}
+
 func runCache(c cacheCfg, st vsync.Strategy) *vsync.Outcome {
 	ch := &parv.Cache{}
 	bodies := make([]func(), len(c.progs))
@@ -821,18 +911,14 @@ func runCache(c cacheCfg, st vsync.Strategy) *vsync.Outcome {
 			}
 		}
 	}
-	return vsync.Run(true, st, 20000, bodies...)
+	return vsync.Run(true, st, c.stepBound()+1, bodies...)
 }
 
-func cacheOracles(c cacheCfg, out *vsync.Outcome, input map[string]string) (ok bool) {
-	ok = true
-	bad := func(o, d string) {
-		ok = false
-		violate(o, d, input)
-	}
+func cacheOracles(c cacheCfg, out *vsync.Outcome) (fs []finding) {
+	bad := func(o, d string) { fs = append(fs, finding{o, d}) }
 	if out.Stuck {
-		res.Notes = append(res.Notes, "a goroutine blocked outside the scheduler shim; run ignored")
-		return true
+		noteOnce("a goroutine blocked outside the scheduler shim; run ignored")
+		return nil
 	}
 	if out.Panic != "" {
 		bad("cache/no-panic", "panic: "+out.Panic)
@@ -895,7 +981,7 @@ func cacheOracles(c cacheCfg, out *vsync.Outcome, input map[string]string) (ok b
 		return
 	}
 	if out.StepLimit {
-		bad("cache/terminates", "step limit reached")
+		bad("cache/terminates", fmt.Sprintf("the run took more than %d steps, the bound proved for the model (C10_schedules_finite: psi of the initial state)", c.stepBound()))
 		return
 	}
 	for _, p := range c.progs {
@@ -987,7 +1073,27 @@ func cacheEvents(c cacheCfg, out *vsync.Outcome) (events, sched, tail string, bl
 func oneCache(c cacheCfg, out *vsync.Outcome, src string) bool {
 	events, sched, tail, _ := cacheEvents(c, out)
 	input := map[string]string{"prop": "C10", "cfg": c.String(), "decisions": dots(chosen(out.Decisions)), "schedule": sched, "source": src}
-	ok := cacheOracles(c, out, input)
+	fs := cacheOracles(c, out)
+	ok := len(fs) == 0
+	if !ok {
+		dec := chosen(out.Decisions)
+		best, bestOut := dec, out
+		for k := 0; k < len(dec) && k <= 400; k++ {
+			o2 := runCache(c, &prefixStrat{prefix: dec[:k]})
+			f2 := cacheOracles(c, o2)
+			if len(f2) > 0 && f2[0].oracle == fs[0].oracle {
+				best, bestOut, fs = dec[:k], o2, f2
+				break
+			}
+		}
+		_, sched2, _, _ := cacheEvents(c, bestOut)
+		in2 := map[string]string{"prop": "C10", "cfg": c.String(), "decisions": dots(best), "schedule": sched2, "source": src,
+			"text": fmt.Sprintf("goroutine programs %s (D = Do, G = Get, number = key), f values %v; schedule (thread per operation) %s", c.progStr(), c.vals, sched2)}
+		for _, f := range fs {
+			violate(f.oracle, f.detail, in2)
+		}
+		failedCfgs[c.String()] = true
+	}
 	pre := preemptions(out.Decisions)
 	contended := strings.Contains(events, "=0+ret:G") || strings.Count(events, "lk") > 1
 	res.Case(c.String()+"#"+events, pre > 0)
@@ -1056,7 +1162,10 @@ func mainCache() {
 	for _, c := range smallCacheCfgs() {
 		c := c
 		_, complete := dfs(func(st vsync.Strategy) *vsync.Outcome { return runCache(c, st) }, bound, maxRuns,
-			func(out *vsync.Outcome) bool { oneCache(c, out, "dfs"); return true })
+			func(out *vsync.Outcome) bool { return oneCache(c, out, "dfs") && !enough() })
+		if enough() {
+			break
+		}
 		if complete {
 			res.Count("dfs-complete")
 		} else {
@@ -1102,7 +1211,7 @@ func mainCache() {
 	if thorough {
 		nRand = 150000
 	}
-	for i := 0; i < nRand; i++ {
+	for i := 0; i < nRand && !enough(); i++ {
 		c := randCacheCfg(r, 6, 4, 3)
 		st := &randStrat{r: r.Fork(), prio: i%2 == 0}
 		if st.prio {
@@ -1206,6 +1315,10 @@ func main() {
 		prop = "C09"
 	}
 	res = common.NewResult(prop, fl.Tier, fl.Seed)
+	deadline = time.Now().Add(50 * time.Second)
+	if fl.Tier == "thorough" {
+		deadline = time.Now().Add(25 * time.Minute)
+	}
 	var err error
 	mdl, err = common.StartModel(fl.Model)
 	if err != nil {
